@@ -63,8 +63,8 @@ type Ctx struct {
 	Funcs  []*ssa.Function // every source function of moss incl. closures
 	byName map[string]*ssa.Function
 
-	cgVTA *callgraph.Graph
-	cgCHA *callgraph.Graph
+	cgVTA  *callgraph.Graph
+	cgCHA  *callgraph.Graph
 	UseCHA bool
 
 	// cached analyses
